@@ -4,8 +4,8 @@
    accepts; and (theorems C16_locals_...) the locals stage pandora itself implements in hcl.go decodeLocals (which block sees
    which local), over a fragment of the expression language.  Statements only; proofs in Proofs/TagTablesProofs.v, Gen/ScenarioTags_bridge.v. *)
 From Coq Require Import List NArith ZArith Bool QArith.
-From PV Require Import Model.ConfigDecode Model.TagTables Model.HclLocals Model.ScenarioGuard Proofs.ConfigDecodeProofs
-  Proofs.TagTablesProofs Proofs.HclLocalsProofs Proofs.ScenarioGuardProofs Gen.ConfigSchemaGen Gen.ScenarioTagsGen Gen.ScenarioTags_bridge.
+From PV Require Import Model.ConfigDecode Model.TagTables Model.HclLocals Model.ScenarioGuard Model.BlockScalar Proofs.ConfigDecodeProofs
+  Proofs.TagTablesProofs Proofs.HclLocalsProofs Proofs.ScenarioGuardProofs Proofs.BlockScalarProofs Gen.ConfigSchemaGen Gen.ScenarioTagsGen Gen.ScenarioTags_bridge.
 Import ListNotations.
 Local Open Scope N_scope.
 
@@ -275,3 +275,53 @@ Example C16_example_assert_size :
   norm_res (read_hcl (with_ctor ex_decode) gen_ammo_schema gen_hcl_root (ex_size_hcl [60])) =
   norm_res (read_yaml (with_ctor ex_decode) gen_ammo_schema (ex_size_yaml [60])).
 Proof. vm_compute. repeat split; reflexivity. Qed.
+
+(* ---- multi-line strings: YAML literal block scalars and HCL heredocs as functions of the text of the file
+   (Model/BlockScalar.v; round 7).  The text of a block scalar runs to the next node or to THE END OF THE FILE. -------- *)
+
+(* Every string -- any bytes, any number of line breaks at its end -- is written as itself under the header chomp_for
+   chooses (`|-` none, `|` one, `|+` more); and under `|+` every text is its own value. *)
+Theorem C16_block_scalar_is_literal :
+  forall x, read_block (chomp_for x) x = x /\ read_block Keep x = x.
+Proof. intro x. split; [exact (block_of_string x) | exact (keep_is_literal x)]. Qed.
+Print Assumptions C16_block_scalar_is_literal.
+
+(* The HCL heredoc and the YAML `|` scalar over the same lines (the last one not blank) are the same string: each line
+   with its break, the break of the LAST line included; and any heredoc is the `|+` scalar over its text. *)
+Theorem C16_heredoc_and_block_scalar_agree :
+  forall ls, ls <> [] -> last ls [] <> [] -> ~ In nl (last ls []) ->
+    heredoc_value (unlines ls) = Some (unlines ls) /\ read_block Clip (unlines ls) = unlines ls.
+Proof. exact heredoc_clip_twin. Qed.
+Print Assumptions C16_heredoc_and_block_scalar_agree.
+
+Theorem C16_heredoc_is_keep_scalar :
+  forall t v, heredoc_value t = Some v -> read_block Keep t = v.
+Proof. exact heredoc_keep_twin. Qed.
+Print Assumptions C16_heredoc_is_keep_scalar.
+
+(* What the end of the file may and may not do to its last node.  The break that ends the last line of a `|` / `|+`
+   scalar is content -- with it and without it the file says two different strings, so a front-end has to hand the
+   text to the parser as it is --, whereas blank lines after a `|` scalar and any breaks after a `|-` one say nothing. *)
+Theorem C16_final_line_break_is_content :
+  forall c t, c <> Strip -> fst (chop t) <> [] -> snd (chop t) = O ->
+    read_block c (t ++ [nl]) = t ++ [nl] /\ read_block c t = t /\ read_block c (t ++ [nl]) <> read_block c t.
+Proof. exact final_break_is_content. Qed.
+Print Assumptions C16_final_line_break_is_content.
+
+Theorem C16_blank_lines_after_last_node :
+  forall t j, read_block Clip (t ++ breaks (S j)) = read_block Clip (t ++ [nl]) /\
+              read_block Strip (t ++ breaks j) = read_block Strip t.
+Proof. intros t j. split; [exact (clip_ignores_blank_lines t j) | exact (strip_ignores_breaks t j)]. Qed.
+Print Assumptions C16_blank_lines_after_last_node.
+
+(* {"n": 1} and its line break, as `|` text, as heredoc lines; without the break; with two blank lines under `|+` *)
+Definition ex_lines_body : str := [123;34;110;34;58;32;49;125].
+Example C16_example_block_scalars :
+  chomp_for (ex_lines_body ++ [nl]) = Clip /\ read_block Clip (ex_lines_body ++ [nl]) = ex_lines_body ++ [nl] /\
+  heredoc_value (unlines [ex_lines_body]) = Some (ex_lines_body ++ [nl]) /\
+  read_block Clip ex_lines_body = ex_lines_body /\ chomp_for ex_lines_body = Strip /\
+  read_block Clip (ex_lines_body ++ [nl; nl; nl]) = ex_lines_body ++ [nl] /\
+  chomp_for (ex_lines_body ++ [nl; nl]) = Keep /\ read_block Keep (ex_lines_body ++ [nl; nl]) = ex_lines_body ++ [nl; nl] /\
+  chomp_for [nl] = Keep /\ read_block Clip [nl; nl] = [] /\ heredoc_value ex_lines_body = None /\
+  (fst (chop ex_lines_body) <> [] /\ snd (chop ex_lines_body) = O).
+Proof. vm_compute. repeat split; try reflexivity. discriminate. Qed.
